@@ -62,5 +62,9 @@ def run(ctx: Ctx, extended: bool = False) -> None:
                 ctx.fail(e.cid, kind, f"timestep violates the protocol: step_type={info['ts']['step_type']} discount={[x[0] / x[1] for x in info['ts']['discount']]}"
                          f" reward={[x[0] / x[1] for x in info['ts']['reward']]}", info)
         ctx.sample({"env": e.cid, "shape": shape, "timesteps": len(reqs)})
+    # the adapters' own configurations and policies (mask-following, greedy, adversarial) reach states random play does not
+    import envprops
+
+    envprops.run(ctx, "C03", extended)
     ctx.coverage_extra["rule"] = ("all catalogue configurations (all 23 classes, single- and multi-agent shapes) x keys x random in-spec action sequences run "
                                   "to the first LAST plus 3 further steps; distinct = distinct (config, key, step index)")
